@@ -1,5 +1,6 @@
 mod drv_bool;
 mod drv_circuit;
+mod drv_conc;
 mod drv_dddmp;
 mod drv_hashtbl;
 mod drv_mv;
@@ -58,6 +59,12 @@ fn main() {
             "bdd" => drv_pick::count::<BDDFunction>(&args),
             "bcdd" => drv_pick::count::<BCDDFunction>(&args),
             "zbdd" => drv_pick::count::<ZBDDFunction>(&args),
+            k => panic!("harness: unknown kind {k}"),
+        },
+        "conc" => match kind.as_str() {
+            "bdd" => drv_conc::conc::<BDDFunction>(&args),
+            "bcdd" => drv_conc::conc::<BCDDFunction>(&args),
+            "zbdd" => drv_conc::conc::<ZBDDFunction>(&args),
             k => panic!("harness: unknown kind {k}"),
         },
         "oom" => match kind.as_str() {
